@@ -362,6 +362,9 @@ def gen_program(rng, cfg, n_stmts=None, weights=None, allow_bad=0.1, gprefix='gl
         elif k == 'mute':
             if muted and rng.random() < 0.7:
                 stmts.append({'k': 'unmute'}); muted -= 1
+            elif not muted and rng.random() < 0.25:
+                # an #unmute / #emit with nothing to undo has no effect (the depth never goes below zero): a later #mute mutes
+                stmts.append({'k': 'unmute'})
             else:
                 stmts.append({'k': 'mute'}); muted += 1
         elif k == 'createZone':
